@@ -662,6 +662,17 @@ def tb_use_@I@(v):
         count = len(names)
     return names, saved.args, saved.__traceback__ is not None
 ''', 'tb_use_@I@(@A@)'),
+    ('prng', '''
+def prng_@I@(seed):
+    import random
+    random.seed(seed)
+    first = random.random()
+    picks = [random.randint(0, 99) for _ in range(3)]
+    deck = list(range(6))
+    random.shuffle(deck)
+    last = random.random()
+    return first, picks, deck, last
+''', 'prng_@I@(@A@ + 7)'),
     ('method_exc', '''
 class Acct_@I@:
     def __init__(self, bal):
